@@ -22,6 +22,7 @@ input) and lenient (error_on_uninitialized=False, every program must build).
 import itertools, re, os
 from vlib import e2, farm, support
 from props import _g6_c21gen as gen
+from props._g6_common import ConfirmCtx
 
 LEVEL = 'exploration'
 ENGINE = 'E2 diffexplore'
@@ -264,7 +265,8 @@ def run(ctx):
     bad, rej_evals, rej_allfail = _check_rejections(ctx, fns, rejected)
 
     mods = _mods(fns, 'L', {'error_on_uninitialized': False}, input_sets) + _mods(accepted, 'D', None, input_sets)
-    st = e2.run_diff(ctx, mods, keyfn=_keyfn, reach=REACH if ctx.quick else REACH_T)
+    cc = ConfirmCtx(ctx, _keyfn)
+    st = e2.run_diff(cc, mods, keyfn=_keyfn, reach=REACH if ctx.quick else REACH_T)
 
     checked = 0
     for m in mods:
@@ -288,6 +290,7 @@ def run(ctx):
         'rejected_failing_on_every_input': rej_allfail, 'unjustified_rejections': bad,
         'read_sites_of_x_in_sources': reads, 'runtime_checked_sites_in_C_lenient': checked,
         'mismatches': st['mismatches'], 'crashes': st['crashes'], 'build_failures': st['build_failures'],
+        'crashes_not_reproduced_on_replay': cc.unreproduced,
         'reach': st.get('reach'), 'reach_gaps': st.get('reach_gaps'),
         'max_digits': max(len(r) for r in radices), 'digit_signatures': len(radices),
         'samples': [{'tag': f.tag, 'function': f.src, 'inputs': len(_inputs(f.radix))} for f in sample],
